@@ -383,6 +383,11 @@ func streamTotal(g *core.G) {
 				g.Emit("law-accessors", kind, core.Hex(text))
 			}
 		}
+		if ep.Op == "verparse" {
+			for _, s := range verFixedSeeds {
+				emitTotal(g, ep, s, &batch)
+			}
+		}
 		if ep.Op == "changelog" {
 			// dates that name their zone, unmutated (see the seed above)
 			for _, z := range []string{"EST", "CET", "UTC", "PST", "GMT", "AEST", "Z"} {
